@@ -139,7 +139,7 @@ def gen_configs(ctx):
         # strategy all: a chain of two non-fresh iterations (the seed schedule must survive a resume
         # between them); strategy latest: one non-fresh iteration
         return [(base("all", 3, fresh=[True, False, False]), "light", 2, False, True),
-                (base("latest", 2, fresh=[True, False]), "light", 2, False, True)]
+                (base("latest", 2, n_samples=[0, 1], fresh=[True, False]), "light", 2, False, True)]   # MAP, then MGVI
     return [
         (base("all", 3, n_samples=[1, 2, 1]), "full", 6, True, True),
         (base("latest", 3, n_samples=[1, 2, 1], fresh=[True, False, False]), "full", 6, True, True),
@@ -147,8 +147,9 @@ def gen_configs(ctx):
         (base("latest", 4, fresh=[bool(x) for x in [True] + list(rng.integers(0, 2, size=3) == 1)]), "kill", 2, False, True),
         (base("all", 2, geovi=True, transition=False, fresh=[True, False], n_samples=2), "light", 2, False, True),
         (base("latest", 3, geovi=True, model="expsum", point_estimates=["b"]), "medium", 4, False, True),
-        (base("latest", 2, n_samples=0, transition=False), "kill", 0, False, False),   # MAP: oracle only
-        (base("all", 2, n_samples=[0, 1], transition=False), "kill", 0, False, False),  # MAP then MGVI: oracle only
+        (base("latest", 2, n_samples=0, transition=False), "light", 1, False, True),    # MAP only
+        (base("all", 3, n_samples=[0, 1, 0], transition=False), "light", 1, False, True),  # MAP, MGVI, MAP
+        (base("latest", 3, n_samples=[1, 0, 1]), "light", 1, False, True),              # MGVI, MAP, MGVI in place
     ]
 
 
@@ -376,7 +377,6 @@ class C25(C.Check):
     assumptions = [
         "one iteration of the driver is a deterministic function of (mean, samples), the iteration index and the random state saved by the first run (checked by the oracle: bit-identical per-iteration hashes)",
         "the restart uses the same arguments, the same output directory and a process whose NIFTy random state equals the one of the first run at the call (same seed)",
-        "every iteration draws at least one sample (ResidualSampleList); MAP iterations (n_samples = 0) are exercised by the oracle only",
         "no marker of another run is present when the first run starts; no other process writes to the directory; single task (comm=None)",
     ]
 
